@@ -748,6 +748,34 @@ class Typer:
         return out
 
 
+def dispatch_shapes(f: FuncInfo, call: ast.Call) -> List[str]:
+    """Name-independent descriptions of a dynamic call site, most specific first (keys of the dispatch table):
+       self.<field>            call of a callable held in a field of self (field names are part of the class's interface)
+       [<x>.type]              call of <mapping>[<something>.type]      (a callback selected by token type)
+       [*]                     call of any other subscripted mapping
+       closure                 call of a local of an enclosing function (a captured callable)"""
+    fn = call.func
+    out: List[str] = []
+    if isinstance(fn, ast.Attribute) and isinstance(fn.value, ast.Name) and fn.value.id == (f.self_name() or 'self'):
+        out.append('self.' + fn.attr)
+    if isinstance(fn, ast.Subscript):
+        base = fn.value
+        if isinstance(base, ast.Attribute) and isinstance(base.value, ast.Name) and base.value.id == (f.self_name() or 'self'):
+            pre = 'self.%s' % base.attr
+        else:
+            pre = ''
+        sl = fn.slice
+        if isinstance(sl, ast.Attribute) and sl.attr == 'type':
+            out.append(pre + '[<x>.type]')
+        else:
+            out.append(pre + '[*]')
+    if isinstance(fn, ast.Name) and f.parent is not None and fn.id not in f.param_names():
+        own = {x.id for x in f.body_nodes() if isinstance(x, ast.Name) and isinstance(x.ctx, ast.Store)}
+        if fn.id not in own:
+            out.append('closure')
+    return out
+
+
 class CallSite:
     __slots__ = ('func', 'node', 'targets', 'kind', 'text')
 
@@ -894,14 +922,18 @@ class CallGraph:
                 tg = [m for m in tg if not m.is_property]
                 if tg:
                     sites.append(CallSite(f, a, tg, 'resolved', 'arg:' + norm(a)))
-        key = (f.qual, text)
-        if key in self.dispatch:
+        key = None
+        for shape in dispatch_shapes(f, n):
+            if (f.qual, shape) in self.dispatch:
+                key = (f.qual, shape)
+                break
+        if key is not None:
             tg = []
             for q in self.dispatch[key]:
                 if q == 'EXTERNAL':
                     continue
                 tg.append(self.repo.func(q))
-            sites.append(CallSite(f, n, tg, 'dispatch', text))
+            sites.append(CallSite(f, n, tg, 'dispatch', key[1]))
             self.stats['dispatch'] += 1
             return
         if isinstance(fn, ast.Name):
